@@ -235,6 +235,13 @@ fn real_main() -> Result<i32, String> {
     if cmd != "free" {
         silent_panic_hook();
     }
+    if a.has("--yields") {
+        if !engine::hooks_compiled() {
+            return Err("--yields needs the hooks build (RUSTFLAGS=\"--cfg fpdec_verif\")".into());
+        }
+        gen::enable_yields(true);
+    }
+    engine::install_hook();
     match cmd {
         "l2" => cmd_l2(&a),
         "shard" => cmd_shard(&a),
@@ -262,6 +269,11 @@ fn real_main() -> Result<i32, String> {
         "minimize" => cmd_minimize(&a),
         "gen" => cmd_gen(&a),
         "free" => free::cmd_free(&a.kv, &a.flags),
+        "refeval" => oracle::refeval_main(),
+        "hooks" => {
+            println!("{}", engine::hooks_compiled());
+            Ok(0)
+        }
         "modes" => {
             println!("{}", arr(ops::MODE_NAMES.iter().map(|m| esc(m)).collect()));
             Ok(0)
